@@ -493,4 +493,46 @@ Section Roundtrip.
     pose proof (ann_roundtrip prefix v1 verbose tk key record body patch H) as R.
     unfold smart. cbn [pfetch] in *. rewrite R. reflexivity.
   Qed.
+
+  (* C16 round trip, annotation diff-base storage (last-handled state): whatever essence is stored, under any prefix, key
+     name, v1/v2, is read back from the object as patched by an RFC 7386 server - for every body.  (Essences are mappings;
+     the guard excludes only a literal null, which the real fetch reads as "nothing stored".) *)
+  Theorem dann_roundtrip prefix dkey v1 ign essence body patch :
+    essence <> JNull ->
+    dstore dg (DAnn prefix dkey v1 ign) body (JObj []) essence = Ok patch ->
+    dfetch dg (DAnn prefix dkey v1 ign) (merge body patch) = Ok (Some essence).
+  Proof.
+    cbn [dstore dfetch]. intros NN H.
+    match type of H with bind ?e _ = _ => destruct e as [p1| | |] eqn:E; try discriminate end.
+    cbn [bind] in H.
+    set (ks := full_keys dg prefix v1 body dkey) in *.
+    set (val := JEnc essence) in *.
+    assert (Hks : exists k2 rest, ks = k2 :: rest).
+    { unfold ks, full_keys, make_keys. cbn [map]. eexists. eexists. reflexivity. }
+    destruct Hks as (k2 & rest & Eks).
+    destruct (ensure_all_resolve ks (JObj []) val p1 eq_refl eq_refl (fun _ _ => eq_refl) E) as (_ & R).
+    destruct (R k2 ltac:(rewrite Eks; left; reflexivity)) as (R2 & W2).
+    destruct (store_marker_keeps prefix body p1 patch k2 val H R2 W2) as (R3 & W3).
+    assert (A : ann_only patch).
+    { eapply store_marker_ann_only; [|exact H]. eapply ensure_all_ann_only; [left; reflexivity|exact E]. }
+    assert (Ek : full_keys dg prefix v1 (merge body patch) dkey = ks).
+    { unfold ks, full_keys. rewrite (is_drs_merge body patch A). reflexivity. }
+    rewrite Ek, Eks. cbn [fetch_keys].
+    rewrite (resolve_merge_leaf body patch (ann_path k2) val (wf_along_wf_path _ _ W3) ltac:(discriminate) R3 eq_refl ltac:(discriminate)).
+    unfold val. destruct essence; try congruence; cbn; reflexivity.
+  Qed.
+
+  (* ... and the status diff-base storage, for every stanza path *)
+  Theorem dstatus_roundtrip field ign essence body patch :
+    essence <> JNull ->
+    dstore dg (DStatus field ign) body (JObj []) essence = Ok patch ->
+    dfetch dg (DStatus field ign) (merge body patch) = Ok (Some essence).
+  Proof.
+    cbn [dstore dfetch]. intros NN H.
+    assert (NE : field <> []) by (intro; subst; discriminate).
+    pose proof (ensure_resolve_same _ _ _ _ H) as R.
+    pose proof (ensure_wf (JObj []) field (JEnc essence) patch eq_refl (wf_along_empty_obj field) H) as W.
+    rewrite (resolve_merge_leaf body patch field (JEnc essence) (wf_along_wf_path _ _ W) NE R eq_refl ltac:(discriminate)).
+    destruct essence; try congruence; cbn; reflexivity.
+  Qed.
 End Roundtrip.
